@@ -144,6 +144,133 @@ def scale_case(cid, rng, schema):
     return {"id": cid, "schema": schema, "ops": full, "_metas": metas, "_index": index, "_scale": True}
 
 
+def many_case(cid, rng, schema, n_roots=350, n_subs=400):
+    """Hundreds of crates, judged once at the end against a forest model (sets; adjacency for create-after on 2.x)."""
+    v2 = schema.startswith("2.")
+    ops = [{"op": "create_temporary", "schema": schema}]
+    parent, name, alive = {}, {}, {}
+    hs = []
+    after_of = {}
+
+    def new(h, p, nm):
+        parent[h], name[h], alive[h] = p, nm, True
+        hs.append(h)
+
+    for i in range(n_roots):
+        h = "c%d" % len(hs)
+        nm = "root %04d" % i
+        roots = [x for x in hs if parent[x] is None]
+        if roots and i % 7 == 3:
+            a = rng.choice(roots)
+            ops.append({"op": "create_root_crate_after", "name": FO.hx(nm), "after": a, "as": h})
+            after_of[h] = a
+        else:
+            ops.append({"op": "create_root_crate", "name": FO.hx(nm), "as": h})
+        new(h, None, nm)
+    for i in range(n_subs):
+        h = "c%d" % len(hs)
+        p = rng.choice(hs[: max(20, len(hs) // 3)])
+        nm = "sub %04d" % i
+        ops.append({"op": "create_sub_crate", "c": p, "name": FO.hx(nm), "as": h})
+        new(h, p, nm)
+
+    def desc(h):
+        out, st = [], [x for x in hs if alive[x] and parent[x] == h]
+        while st:
+            x = st.pop()
+            out.append(x)
+            st.extend(y for y in hs if alive[y] and parent[y] == x)
+        return out
+
+    for _ in range(60):
+        live = [x for x in hs if alive[x]]
+        r = rng.random()
+        c = rng.choice(live)
+        if r < 0.35:
+            nm = "renamed %d" % rng.randrange(10 ** 6)
+            ops.append({"op": "set_name", "c": c, "name": FO.hx(nm)})
+            name[c] = nm
+        elif r < 0.7:
+            d = set(desc(c))
+            cand = [x for x in live if x != c and x not in d]
+            p = rng.choice(cand + [None])
+            ops.append({"op": "set_parent", "c": c, "parent": p})
+            parent[c] = p
+            after_of.pop(c, None)
+            for k in [k for k, v in after_of.items() if v == c]:
+                after_of.pop(k)
+        else:
+            for x in desc(c) + [c]:
+                alive[x] = False
+            ops.append({"op": "remove_crate", "c": c})
+    tail = len(ops)
+    ops += [{"op": "db_query", "q": "crates"}, {"op": "db_query", "q": "root_crates"}]
+    probe = rng.sample([x for x in hs if alive[x]], 25)
+    for x in probe:
+        ops += [{"op": "crate_query", "c": x, "q": "children"}, {"op": "crate_query", "c": x, "q": "descendants"},
+                {"op": "crate_query", "c": x, "q": "parent"}, {"op": "crate_query", "c": x, "q": "name"}]
+    model = {"parent": parent, "name": name, "alive": alive, "hs": hs, "after_of": after_of, "probe": probe, "tail": tail}
+    return {"id": cid, "schema": schema, "ops": ops, "_many": model}
+
+
+def judge_many(ctx, res):
+    case = res.case
+    schema = case["schema"]
+    fam = family(schema)
+    m = case["_many"]
+    ctx.count()
+    ctx.bump("many_crate_cases")
+    wit = {"schema": schema, "ops": case["ops"][-60:], "crates": len(m["hs"])}
+    evs = res.events
+    if res.crash or len(evs) < len(case["ops"]):
+        kind = res.crash["kind"] if res.crash else "incomplete"
+        ctx.violation(f"op-did-not-complete {fam} many-crates {kind}", f"{schema}: the many-crates case did not complete: {kind}", wit)
+        return
+    hid = {}
+    for k, op in enumerate(case["ops"]):
+        if "as" in op and "ret" in evs[k]:
+            hid[op["as"]] = evs[k]["ret"]
+        if "exc" in evs[k] and k < m["tail"]:
+            ctx.violation(f"bulk-op-throws {fam} {op['op']}", f"{schema}: {op['op']} threw {evs[k]['exc']['type']} in the many-crates case", wit)
+            return
+    live = [h for h in m["hs"] if m["alive"][h]]
+    ctx.extra["many_max_live_crates"] = max(ctx.extra.get("many_max_live_crates", 0), len(live))
+    got = evs[m["tail"]].get("ret")
+    if got is None or sorted(got) != sorted(hid[h] for h in live):
+        ctx.violation(f"wrong-crate-set {fam} many-crates", f"{schema}: crates() has {len(got or [])} entries, the model {len(live)}", wit)
+        return
+    roots = evs[m["tail"] + 1].get("ret")
+    want_roots = [hid[h] for h in live if m["parent"][h] is None]
+    if roots is None or sorted(roots) != sorted(want_roots) or len(set(roots)) != len(roots):
+        ctx.violation(f"inconsistent {fam} root_crates-mismatch many-crates", f"{schema}: root_crates() has {len(roots or [])} entries, the model {len(want_roots)}", wit)
+    elif schema.startswith("2."):
+        pos = {x: i for i, x in enumerate(roots)}
+        for h, a in m["after_of"].items():
+            if m["alive"].get(h) and m["alive"].get(a) and m["parent"][h] is None and m["parent"][a] is None:
+                # nothing was created after `a` later on? adjacency is only guaranteed right after creation, so judge order only
+                if pos[hid[h]] < pos[hid[a]]:
+                    ctx.violation(f"created-after-misplaced {fam} many-crates", f"{schema}: a crate created after a sibling is listed before it", wit)
+                    break
+    k = m["tail"] + 2
+    for x in m["probe"]:
+        ch, de, pa, nm = (evs[k + j].get("ret") for j in range(4))
+        k += 4
+        want_ch = sorted(hid[y] for y in live if m["parent"][y] == x)
+        dd, st = [], [y for y in live if m["parent"][y] == x]
+        while st:
+            y = st.pop()
+            dd.append(hid[y])
+            st.extend(z for z in live if m["parent"][z] == y)
+        if ch is None or sorted(ch) != want_ch:
+            ctx.violation(f"inconsistent {fam} children-mismatch many-crates", f"{schema}: children() of a crate with {len(want_ch)} children lists {len(ch or [])}", wit)
+        if de is None or sorted(de) != sorted(dd):
+            ctx.violation(f"inconsistent {fam} descendants-mismatch many-crates", f"{schema}: descendants() lists {len(de or [])}, the model {len(dd)}", wit)
+        if pa != (hid[m["parent"][x]] if m["parent"][x] else None):
+            ctx.violation(f"wrong-parent {fam} many-crates", f"{schema}: parent() = {pa}", wit)
+        if nm != FO.hx(m["name"][x]):
+            ctx.violation(f"wrong-name {fam} many-crates", f"{schema}: name() differs from the model", wit)
+
+
 def opdesc(meta):
     k = meta["kind"]
     if k == "create":
@@ -337,6 +464,9 @@ def run(ctx):
         cases.append(scale_case("s%d" % n, ctx.rng, schema))
         n += 1
     ctx.extra["scale_cases"] = len(ALL_SCHEMAS)
+    for schema in ALL_SCHEMAS:
+        cases.append(many_case("m%d" % n, ctx.rng, schema, 350 if ctx.tier == "quick" else 1200, 400 if ctx.tier == "quick" else 1500))
+        n += 1
     alpha = exhaustive_alphabet()
     depth = 2 if ctx.tier == "quick" else 3
     nexh = 0
@@ -358,7 +488,7 @@ def run(ctx):
         "outcome is accepted and the model follows what was observed, but a throwing call must change nothing",
         "exception types are not judged; id reuse after removal is not a collision",
         "termination judged by a VDBE step budget of 5*10^7 per call"]
-    runner.run_cases(cases, cfg="plain", on_result=lambda r: judge_case(ctx, r), stall_timeout=60)
+    runner.run_cases(cases, cfg="plain", on_result=lambda r: judge_many(ctx, r) if r.case.get("_many") else judge_case(ctx, r), stall_timeout=120)
     seen = set(ctx.extra.get("cases_by_schema", {}))
     if seen != set(ALL_SCHEMAS):
         ctx.fail_harness("schema versions not covered: %s" % sorted(set(ALL_SCHEMAS) - seen))
